@@ -2,7 +2,7 @@ import Mathlib.Data.List.GetD
 import Mathlib.Algebra.BigOperators.Field
 import Mathlib.Algebra.BigOperators.Intervals
 import PsV.Proofs.Lawful
-import PsV.Model.Fit
+import PsV.Model.FitGlam
 /-!
 # C09: `divided_diffs` / the finite-difference matrix of `calc_penalty` compute the derivative coefficients of the
 specification (`derivCoef`), and `derivCoef` really is "the coefficients of the derivative" (summation by parts
